@@ -657,10 +657,10 @@ fn random_history(rng: &mut Rng, max_cfg: usize) -> Hist {
     }
     Hist { cls: "random", c0: rng.below(max_cfg), ops }
 }
-/// Which configurations the histories may use: the last one switches the templater, which the
-/// server's linter does not follow (see notes/C20.md); it is enabled by `--with-templater-switch`.
+/// Which configurations the histories may use: the last one switches the templater (the server
+/// must rebuild its linter on a configuration save; `--without-templater-switch` leaves it out).
 fn n_configs(args: &Args) -> usize {
-    if args.extra.iter().any(|a| a == "--with-templater-switch") { CONFIGS.len() } else { CONFIGS.len() - 1 }
+    if args.extra.iter().any(|a| a == "--without-templater-switch") { CONFIGS.len() - 1 } else { CONFIGS.len() }
 }
 fn plan(args: &Args) -> Vec<Hist> {
     let mut hs = vec![];
@@ -668,6 +668,11 @@ fn plan(args: &Args) -> Vec<Hist> {
     hs.push(Hist { cls: "regression", c0: 0, ops: vec![Op::Open(0, 1), Op::Format(0)] });
     hs.push(Hist { cls: "regression", c0: 0, ops: vec![Op::Open(0, 3), Op::WriteDisk(2), Op::Save(0), Op::Format(0), Op::Close(0), Op::Format(0)] });
     hs.push(Hist { cls: "regression", c0: 1, ops: vec![Op::Open(0, 6), Op::Open(1, 7), Op::WriteDisk(0), Op::Save(1), Op::Change(0, 13), Op::Format(0), Op::Format(1)] });
+    if n_configs(args) == CONFIGS.len() {
+        // the templater changes with the configuration (fixed: stale templater after a configuration save)
+        hs.push(Hist { cls: "regression", c0: 4, ops: vec![Op::WriteDisk(0), Op::Save(0), Op::Open(0, 10), Op::Format(0)] });
+        hs.push(Hist { cls: "regression", c0: 0, ops: vec![Op::Open(0, 10), Op::WriteDisk(4), Op::Save(0), Op::Format(0), Op::Change(0, 10)] });
+    }
     let full = alphabet_full();
     let red = alphabet_reduced();
     let (lf, lr, nrand) = if args.thorough() { (4, 5, 3000) } else { (3, 4, 300) };
@@ -796,14 +801,16 @@ fn format_cases(out: &mut Out, tab: &BTreeMap<(usize, usize), Entry>, only: Opti
         let ol = TEXTS[*t].lines().count();
         let nl = e.fixed.lines().count();
         let cls = if nl < ol { "format-fix-shorter" } else if nl > ol { "format-fix-longer" } else if e.fixed != TEXTS[*t] { "format-fix-same-lines" } else { "format-clean" };
-        buf.case(
-            "format",
-            cls,
-            nl != ol,
-            g_tuple(&[g_utf16(TEXTS[*t]), g_utf16(&e.fixed)]),
-            g_edits(&es),
-            json!({"input":{"c0":c,"ops":[[0,0,t],[5,0,0]]},"config":CONFIGS[*c],"text":TEXTS[*t],"fixed":e.fixed,"edits":es}),
-        );
+        for group in ["format", "fmtedit"] {
+            buf.case(
+                group,
+                cls,
+                nl != ol,
+                g_tuple(&[g_utf16(TEXTS[*t]), g_utf16(&e.fixed)]),
+                g_edits(&es),
+                json!({"input":{"c0":c,"ops":[[0,0,t],[5,0,0]]},"config":CONFIGS[*c],"text":TEXTS[*t],"fixed":e.fixed,"edits":es}),
+            );
+        }
         // hypothesis of C20_zero_based: the linter's positions are one-based and fit u32
         for (l, p, _, _) in &e.viols {
             buf.hyp("H_one_based (1 <= line_no, line_pos < 2^32 in every lint result)", "blocking", *l >= 1 && *p >= 1 && (*l as u64) < (1u64 << 32) && (*p as u64) < (1u64 << 32), json!({"config":c,"text":TEXTS[*t],"line":l,"pos":p}));
@@ -911,8 +918,8 @@ pub fn main(args: &Args) {
         let wout = wd.join(format!("worker-{}.jsonl", k));
         let mut cmd = std::process::Command::new(&exe);
         cmd.arg("c20").arg("--tier").arg(&args.tier).arg("--seed").arg(args.seed.to_string()).arg("--out").arg(&wout).arg("--worker").arg(format!("{}/{}", k, nworkers));
-        if nc == CONFIGS.len() {
-            cmd.arg("--with-templater-switch");
+        if nc != CONFIGS.len() {
+            cmd.arg("--without-templater-switch");
         }
         children.push((cmd.spawn().expect("spawn worker"), wout));
     }
